@@ -199,7 +199,7 @@ func parseAsType(text string) (ast.Expr, error) {
 // reparse: the re-parse clause.  An expression node's source slice must parse (as an expression,
 // or as a type, or — for a command-style call — as the expression statement of a script) to a tree
 // of the same shape; a statement's slice must parse to the same statement.
-func (c *ctxFile) reparse(n ast.Node, parentKind string) {
+func (c *ctxFile) reparse(n ast.Node, parentKind string) { // parentKind: "<Kind>.<Slot>" of the parent
 	kind := astx.KindName(n)
 	text := c.src(n.Pos(), n.End())
 	if text == "" {
@@ -215,6 +215,12 @@ func (c *ctxFile) reparse(n ast.Node, parentKind string) {
 		}
 		if strings.HasPrefix(text, "func") {
 			return // at the top level of a script `func …` starts a declaration
+		}
+		switch parentKind[strings.LastIndex(parentKind, ".")+1:] {
+		case "Init", "Post", "Assign", "Comm":
+			// simple statements of if/for/switch/select headers are parsed without the command-call
+			// rule (`switch any (a).(type)`); as stand-alone statements they may read differently
+			return
 		}
 		want = shapeOf(n)
 		st, err := parseAsStmt(text)
@@ -246,7 +252,7 @@ func (c *ctxFile) reparse(n ast.Node, parentKind string) {
 				outcome = "differs"
 			}
 			c.o.Count("reparse_cmdcall_" + outcome)
-			if outcome != "ok" && parentKind == "ExprStmt" {
+			if outcome != "ok" && strings.HasPrefix(parentKind, "ExprStmt.") {
 				c.fail("reparse:CallExpr", fmt.Sprintf("%s (command style) re-parsed as a statement: %s (%v)", c.where(n), outcome, perr))
 			}
 			return
@@ -281,7 +287,7 @@ func (c *ctxFile) reparse(n ast.Node, parentKind string) {
 	c.o.Count("reparse_" + outcome + "_" + kind)
 	flag := reparseKinds[kind]
 	if kind == "FuncType" { // a type by itself only when it starts with `func` and is not a declaration's signature
-		flag = strings.HasPrefix(text, "func") && parentKind != "FuncDecl"
+		flag = strings.HasPrefix(text, "func") && !strings.HasPrefix(parentKind, "FuncDecl.")
 	}
 	if outcome != "ok" && flag {
 		c.fail("reparse:"+kind, fmt.Sprintf("%s re-parses with %s (%v)", c.where(n), outcome, perr))
@@ -349,7 +355,7 @@ func (c *ctxFile) check(n ast.Node, parentKind string, synthetic, inLit bool, de
 				prev, prevSlot = cn, ch.Slot
 			}
 		}
-		c.check(cn, kind, childSynthetic, childInLit, depth+1)
+		c.check(cn, kind+"."+ch.Slot, childSynthetic, childInLit, depth+1)
 	}
 	cleanBelow := c.nfail == failsBefore
 	if !pos.IsValid() && !end.IsValid() && !synthetic {
@@ -474,6 +480,13 @@ func runParsed(recipe string, p *astx.Parsed, o *vh.Out) {
 	for i, n := range order {
 		parts[i] = strconv.Itoa(d.ID(n)) + ":" + safe(n.Pos) + ":" + safe(n.End)
 	}
+	for i, n := range order {
+		if k := astx.KindName(n); k == "" {
+			c.fail("foreign-node:"+reflect.TypeOf(n).String(), "the parser returned (err == nil) a tree containing a node that is not an ast node kind")
+		} else if strings.Contains(parts[i], "!") {
+			c.fail("pos-panic:"+k, fmt.Sprintf("Pos()/End() of a %s panics: %s", k, parts[i]))
+		}
+	}
 	c.check(p.File, "", false, false, 0)
 	switch {
 	case d.N < 30:
@@ -519,33 +532,8 @@ func rel(p string) string {
 func runRecipe(recipe string, o *vh.Out) error {
 	fs := strings.Split(recipe, "|")
 	switch fs[0] {
-	case "file":
-		p, err := astx.SafeParse(filepath.Join(astx.Repo(), fs[1]), nil)
-		if err != nil {
-			return err
-		}
-		runParsed(recipe, p, o)
-	case "emb":
-		p, err := astx.ParseEmbedded(fs[1])
-		if err != nil {
-			return err
-		}
-		runParsed(recipe, p, o)
-	case "mut":
-		seed, _ := strconv.ParseUint(fs[2], 10, 64)
-		path := filepath.Join(astx.Repo(), fs[1])
-		src, err := os.ReadFile(path)
-		if err != nil {
-			return err
-		}
-		p, err := astx.SafeParse(path, astx.MutateLayout(src, vh.NewRand(seed)))
-		if err != nil {
-			return err
-		}
-		runParsed(recipe, p, o)
-	case "gen":
-		seed, _ := strconv.ParseUint(fs[1], 10, 64)
-		p, err := astx.SafeParse("/gen/g"+fs[1]+".xgo", astx.GenSource(vh.NewRand(seed)))
+	case "file", "emb", "mut", "dense", "gen", "tokmut":
+		p, err := astx.ParseRecipe(recipe)
 		if err != nil {
 			return err
 		}
@@ -592,8 +580,14 @@ func main() {
 			o.Count("skipped_" + strings.SplitN(recipe, "|", 2)[0] + "_parse_error")
 		}
 	}
+	// fixed regression corpus first: every embedded file as is and in three dense layouts (a blank /
+	// a comment before every token, blank+comment before every closing token and separator);
+	// the near-valid neg_* files are walked whenever the parser accepts them
 	for _, name := range astx.EmbeddedFiles() {
 		try("emb|" + name)
+		for m := 0; m < 3; m++ {
+			try(fmt.Sprintf("dense|emb:%s|%d", name, m))
+		}
 	}
 	xgo, gofiles := astx.CorpusFiles()
 	for _, p := range xgo {
@@ -621,8 +615,31 @@ func main() {
 		rr := r.Fork(2000 + i)
 		try(fmt.Sprintf("mut|%s|%d", rel(xgo[rr.Intn(len(xgo))]), rr.U64()%1000000))
 	}
+	for i, p := range xgo { // dense layouts of the XGo corpus (one mode per file in quick, all in thorough)
+		for m := 0; m < 3; m++ {
+			if thorough || m == (i+int(f.Seed))%3 {
+				try(fmt.Sprintf("dense|file:%s|%d", rel(p), m))
+			}
+		}
+	}
 	for i := 0; i < f.N; i++ {
-		try(fmt.Sprintf("gen|%d", r.Fork(5000+i).U64()%100000000))
+		rr := r.Fork(5000 + i)
+		rec := fmt.Sprintf("gen|%d", rr.U64()%100000000)
+		if i%4 == 3 {
+			rec += fmt.Sprintf("#%d", 1+rr.Intn(len(astx.ParseModes)-1))
+		}
+		try(rec)
+	}
+	// token-level mutants of valid sources (most are rejected by the parser)
+	nTok := f.N
+	emb := astx.EmbeddedFiles()
+	for i := 0; i < nTok; i++ {
+		rr := r.Fork(7000 + i)
+		ref := "emb:" + emb[rr.Intn(len(emb))]
+		if rr.Bool() && len(xgo) > 0 {
+			ref = "file:" + rel(xgo[rr.Intn(len(xgo))])
+		}
+		try(fmt.Sprintf("tokmut|%s|%d", ref, rr.U64()%100000000))
 	}
 	// synthesised trees (differential only)
 	kinds := astx.KindTypes()
